@@ -283,11 +283,21 @@ fn quoted_printable_efficient(b: &[u8]) -> bool {
 /// In place conversion to CRLF line endings
 fn in_place_crlf_line_endings(string: &mut String) {
     let indices = find_all_lf_char_indices(string);
-
-    for i in indices {
-        // this relies on `indices` being in reverse order
-        string.insert(i, '\r');
+    if indices.is_empty() {
+        return;
     }
+
+    // One pass: inserting into the string once per index would move its tail every time
+    let mut converted = String::with_capacity(string.len() + indices.len());
+    let mut copied = 0;
+    // this relies on `indices` being in reverse order
+    for &i in indices.iter().rev() {
+        converted.push_str(&string[copied..i]);
+        converted.push('\r');
+        copied = i;
+    }
+    converted.push_str(&string[copied..]);
+    *string = converted;
 }
 
 /// Find indices to all places where `\r` should be inserted
